@@ -21,9 +21,11 @@
      11 dump (serialize() parsed: compresses) | 12 peek (clone().serialize() parsed)
      14 roundtrip (deserialize(serialize())) | 15 deserialize bytes.. | 16 freeze().unfreeze() (obs: dump)
      18 rq q.. (obs: x1 r1 x2 r2 ..  with x = quantile(q), r = rank(x))
+     19 fork src dst (dst := deserialize(serialize(src)); obs [1]) | 20 image (obs: the bytes of serialize())
+     21 deserialize_f32 bytes.. (is_f32 = true)
    dump = [k; reverse_merge; n; min; max; mean_0; weight_0; ...] (bits; min = max = -2 when n = 0) *)
 From Coq Require Import QArith Qabs.
-From DS Require Import Base.Prelude Model.TDigest Spec.TDigestSpec.
+From DS Require Import Base.Prelude Base.Oracles Base.TDigestBits Model.TDigest Model.TDigestCodec Spec.TDigestSpec Spec.TDigestLayout.
 From DS Require Gen.GenTDigest Gen.GenCodec.
 Open Scope Z_scope.
 
@@ -108,73 +110,35 @@ Definition dump_matches (d : td) (D : dump) : bool :=
   (td_k d =? d_k D) && Bool.eqb (td_rev d) (d_rev D) && oq_eq (td_min d) (d_min D) && oq_eq (td_max d) (d_max D)
   && list_eqb c_eq (td_cs d) (d_cs D).
 
-(* ---------- deserialize (own format, f64 flavour; compat formats are not driven here) ---------- *)
+(* ---------- deserialize: the byte-level model (Model/TDigestCodec.v), values read back as rationals ---------- *)
 Definition u_le (n : nat) (bs : list Z) (off : nat) : Z :=
   Nz (le_val (map zN (firstn n (skipn off bs)))).
-Definition have (bs : list Z) (n : nat) : bool := (n <=? length bs)%nat.
 
-Fixpoint read_cs (n : nat) (bs : list Z) (off : nat) : outcome (list centroid) :=
-  match n with
-  | O => Ok []
-  | S n' =>
-      if negb (have bs (off + 16)) then Err else
-      let m := u_le 8 bs off in let w := u_le 8 bs (off + 8) in
-      match Q_of_bits m with
-      | None => Err                                   (* NaN or infinite mean *)
-      | Some q => if w =? 0 then Err else
-                  obind (read_cs n' bs (off + 16)) (fun t => Ok ((q, Z.to_pos w) :: t))
-      end
+Definition pair_of_bits (c : N * N) : option centroid :=
+  match Q_of_bits (Nz (fst c)) with
+  | Some q => if (0 <? snd c)%N then Some (q, N.to_pos (snd c)) else None
+  | None => None
   end.
 
-Fixpoint read_vals (n : nat) (bs : list Z) (off : nat) : outcome (list Q) :=
-  match n with
-  | O => Ok []
-  | S n' =>
-      if negb (have bs (off + 8)) then Err else
-      match Q_of_bits (u_le 8 bs off) with
-      | None => Err
-      | Some q => obind (read_vals n' bs (off + 8)) (fun t => Ok (q :: t))
+(* None = a state the rational model cannot hold (infinite min / max) *)
+Definition td_of_tdb (s : tdb) : option td :=
+  match all_some (map pair_of_bits (b_cs s)), all_some (map (fun b => Q_of_bits (Nz b)) (b_buf s)) with
+  | Some cs, Some vals =>
+      match b_cs s, b_buf s with
+      | [], [] => Some (mkTd (Nz (b_k s)) (b_rev s) None None [] 0 [])
+      | _, _ => match Q_of_bits (Nz (b_min s)), Q_of_bits (Nz (b_max s)) with
+                | Some mn, Some mx => Some (mkTd (Nz (b_k s)) (b_rev s) (Some mn) (Some mx) cs (Nz (b_cw s)) vals)
+                | _, _ => None
+                end
       end
-  end.
-
-(* None = an image this driver does not model (compat formats, infinite min/max) *)
-Definition td_deserialize (bs : list Z) : option (outcome td) :=
-  if negb (have bs 3) then Some Err else
-  let pre := nth 0 bs 0 in let ver := nth 1 bs 0 in let fam := nth 2 bs 0 in
-  if negb (fam =? GenCodec.FAMILY_TDIGEST_ID) then
-    (if (pre =? 0) && (ver =? 0) && (fam =? 0) then None else Some Err) else
-  if negb (ver =? GenTDigest.SERIAL_VERSION) then Some Err else
-  if negb (have bs 5) then Some Err else
-  let k := u_le 2 bs 3 in
-  if k <? MIN_K then Some Err else
-  if negb (have bs 6) then Some Err else
-  let flags := nth 5 bs 0 in
-  let is_empty := negb (Z.land flags GenTDigest.FLAGS_IS_EMPTY =? 0) in
-  let is_single := negb (Z.land flags GenTDigest.FLAGS_IS_SINGLE_VALUE =? 0) in
-  let expected := if is_empty || is_single then GenTDigest.PREAMBLE_LONGS_EMPTY_OR_SINGLE else GenTDigest.PREAMBLE_LONGS_MULTIPLE in
-  if negb (pre =? expected) then Some Err else
-  if negb (have bs 8) then Some Err else
-  if is_empty then Some (Ok (mkTd k false None None [] 0 [])) else
-  let rv := negb (Z.land flags GenTDigest.FLAGS_REVERSE_MERGE =? 0) in
-  if is_single then
-    if negb (have bs 16) then Some Err else
-    let b := u_le 8 bs 8 in
-    if is_nan_b b || is_inf_b b then Some Err else
-    match Q_of_bits b with
-    | Some v => Some (Ok (mkTd k rv (Some v) (Some v) [(v, 1%positive)] 1 []))
-    | None => Some Err
-    end
-  else
-  if negb (have bs 32) then Some Err else
-  let nc := u_le 4 bs 8 in let nb := u_le 4 bs 12 in
-  let mnb := u_le 8 bs 16 in let mxb := u_le 8 bs 24 in
-  if is_nan_b mnb || is_nan_b mxb then Some Err else
-  match Q_of_bits mnb, Q_of_bits mxb with
-  | Some mn, Some mx =>
-      Some (obind (read_cs (Z.to_nat nc) bs 32) (fun cs =>
-            obind (read_vals (Z.to_nat nb) bs (32 + 16 * Z.to_nat nc)) (fun vals =>
-            Ok (mkTd k rv (Some mn) (Some mx) cs (sumw cs) vals))))
   | _, _ => None
+  end.
+
+Definition td_deserialize (is_f32 : bool) (bs : list Z) : option (outcome td) :=
+  match tdb_dec is_f32 (map zN bs) with
+  | Ok s => match td_of_tdb s with Some d => Some (Ok d) | None => None end
+  | Err => Some Err
+  | Stuck => Some Stuck
   end.
 
 (* =====================================================================================
@@ -195,19 +159,13 @@ Definition bmin2 (a b : option Z) := match b with None => a | Some x => bmin a x
 Definition bmax2 (a b : option Z) := match b with None => a | Some x => bmax a x end.
 Definition obits (a : option Z) : list Z := match a with Some b => [b] | None => [NONE] end.
 
-Definition bits_of_image_q (bs : list Z) (off : nat) : Z := u_le 8 bs off.
-
-Definition spec_of_image (bs : list Z) : option (outcome spec) :=
-  match td_deserialize bs with
-  | None => None
-  | Some Err => Some Err
-  | Some Stuck => Some Stuck
-  | Some (Ok d) =>
-      let n := td_total d in
-      if n =? 0 then Some (Ok (mkSpec (td_k d) 0 None None false))
-      else if negb (Z.land (nth 5 bs 0) GenTDigest.FLAGS_IS_SINGLE_VALUE =? 0)
-      then Some (Ok (mkSpec (td_k d) 1 (Some (u_le 8 bs 8)) (Some (u_le 8 bs 8)) false))
-      else Some (Ok (mkSpec (td_k d) n (Some (u_le 8 bs 16)) (Some (u_le 8 bs 24)) false))
+Definition spec_of_image (is_f32 : bool) (bs : list Z) : outcome spec :=
+  match tdb_dec is_f32 (map zN bs) with
+  | Ok s => let n := Nz (tdb_total s) in
+            if n =? 0 then Ok (mkSpec (Nz (b_k s)) 0 None None false)
+            else Ok (mkSpec (Nz (b_k s)) n (Some (Nz (b_min s))) (Some (Nz (b_max s))) false)
+  | Err => Err
+  | Stuck => Stuck
   end.
 
 (* one step of the exact spec: new state, exact observation (meaningful only for the masked ops),
@@ -234,12 +192,14 @@ Definition spec_step (st : sslots) (o : zop) : sslots * list Z :=
   | 10 => match sget st slot with Some s => (st, [zbool (sp_n s =? 0)]) | None => (st, PANIC) end
   | 17 => match sget st slot with Some s => (st, [sp_k s]) | None => (st, PANIC) end
   | 14 => match sget st slot with Some s => (st, [1]) | None => (st, PANIC) end
-  | 15 => match spec_of_image (skipn 1 a) with
-          | Some (Ok s) => (sput st slot s, [1])
-          | Some Err => (st, ERR)
-          | Some Stuck => (st, PANIC)
-          | None => (st, [])
+  | 15 | 21 => match spec_of_image (code =? 21) (skipn 1 a) with
+          | Ok s => (sput st slot s, [1])
+          | Err => (st, ERR)
+          | Stuck => (st, PANIC)
           end
+  | 19 => match sget st slot with
+          | Some s => (sput st (nth 1 a 0) s, [1])
+          | None => (st, PANIC) end
   | _ => (st, [])
   end.
 
@@ -448,11 +408,25 @@ Definition tie_step (st : mslots) (o : zop) (ob : list Z) : option (mslots * boo
                   Some (mput st slot d' None, list_eqb Z.eqb ob [1])
               end
           end
-  | 15 => match td_deserialize (skipn 1 a) with
+  | 15 | 21 => match td_deserialize (code =? 21) (skipn 1 a) with
           | Some (Ok d) => Some (mput st slot d None, list_eqb Z.eqb ob [1])
           | Some Err => Some (st, list_eqb Z.eqb ob ERR)
           | Some Stuck => Some (st, is_panic)
           | None => None
+          end
+  | 19 => match mget st slot with
+          | None => None
+          | Some m =>
+              match compressed m with
+              | None => None
+              | Some d =>
+                  let d' := if td_is_empty d then mkTd (td_k d) false None None [] 0 [] else d in
+                  Some (mput (mput st slot d None) (nth 1 a 0) d' None, list_eqb Z.eqb ob [1])
+              end
+          end
+  | 20 => match mget st slot with
+          | None => None
+          | Some m => if has_buf (m_td m) then None else Some (st, true)
           end
   | 18 => match mget st slot with
           | None => None
@@ -559,8 +533,8 @@ Definition view_of_dump (D : option dump) : option view :=
   | _ => None
   end.
 
-Definition view_of_image (bs : list Z) : option view :=
-  match td_deserialize bs with
+Definition view_of_image (is_f32 : bool) (bs : list Z) : option view :=
+  match td_deserialize is_f32 bs with
   | Some (Ok d) => match td_buf d, td_cs d, td_min d, td_max d with
                    | [], (_ :: _) as cs, Some mn, Some mx => Some (mkView mn mx cs (sumw cs))
                    | _, _, _, _ => None
@@ -668,7 +642,8 @@ Definition prop_step (st : sslots) (mem : pmem) (o : zop) (ob : list Z) : pmem *
   | 2 => (vset (forget_queries mem) slot (match ob with [] => vget mem slot | _ => view_of_dump (parse_dump ob) end), true)
   | 11 | 16 => (vset (forget_queries mem) slot (view_of_dump (parse_dump ob)), true)
   | 12 => (vset mem slot (view_of_dump (parse_dump ob)), true)
-  | 15 => (vset (forget_queries mem) slot (if list_eqb Z.eqb ob [1] then view_of_image (skipn 1 a) else None), true)
+  | 15 | 21 => (vset (forget_queries mem) slot (if list_eqb Z.eqb ob [1] then view_of_image (code =? 21) (skipn 1 a) else None), true)
+  | 19 => (vset (forget_queries mem) (nth 1 a 0) (vget mem slot), true)
   | 0 => (vset (forget_queries mem) slot None, true)
   | 14 => (forget_queries mem, true)
   | _ => (mem, true)
